@@ -484,7 +484,8 @@ func makeUnusedInputProvider() (*provider, error) {
 		return nil, fmt.Errorf("internal error #328: problem with unused injectors: %w", err)
 	}
 	d.isSynthetic = true
-	d.shun = true
+	// not Shun'd: eliminating it first would drag every provider that takes Unused out of the chain
+	d.shun = false
 	return d, nil
 }
 
